@@ -23,6 +23,7 @@ ASSUMPTIONS = [
     "zombie fixture mirrors what a real zombie showed under root on this kernel (empty cmdline/smaps, ESRCH on environ/smaps_rollup, ENOENT on exe/cwd)",
     "'later queries raise NoSuchProcess' is asserted only for calls that perform >= 1 OS access (cached create_time()/exe() cannot know); is_running()->False, wait()->None, children()->[] are the documented non-raising answers",
     "cause/class matching only where unambiguous: live fixture + single deny => value or AccessDenied; vanish-only => value or NoSuchProcess",
+    "halfvanish = the non-atomic teardown window of upstream issue #2418: /proc/<pid> still resolves while every file inside gives ENOENT (syscalls ESRCH); the window is closed before the 'later queries' are made",
     "faults are placed on per-process accesses (/proc/<pid>/..., kill, native per-pid calls), not on system-wide files",
 ]
 REQUIRED_COUNTERS = ["faults_fired", "post_gone_calls", "shim_differential_getters_compared"]
@@ -154,6 +155,10 @@ def run_op(opname, fixture, plan, do_post=False):
                 if action == "vanish":
                     t.remove(target)
                     return None
+                if action == "halfvanish":
+                    if target in t.procs:
+                        t.procs[target].half_gone = True
+                    return None
                 if action == "zombify":
                     if target in t.procs:
                         t.exit(target, 0)
@@ -181,6 +186,8 @@ def run_op(opname, fixture, plan, do_post=False):
         out["trace"] = list(vk.log[base:])
         out["breaches"] = list(vk.breaches)
         vk.plan.clear()
+        if do_post and pid in t.procs and getattr(t.procs[pid], "half_gone", False):
+            t.remove(pid)        # the teardown window is over by the time a *later* query is made
         if do_post and pid not in t.procs:
             post = []
             for name, fn in env["ops"].items():
@@ -242,7 +249,7 @@ def judge(opname, fixture, plan, out, pid, clean_value, acc):
                     viols.append(("single_deny_on_identity_recheck_reports_pid_reused", desc))
                 else:
                     viols.append((f"single_deny_gives_{kind}:{opname}", desc))
-            if a == "vanish" and kind != "NoSuchProcess":
+            if a in ("vanish", "halfvanish") and kind != "NoSuchProcess":
                 viols.append((f"vanish_gives_{kind}:{opname}", desc))
             if a == "zombify" and kind == "AccessDenied":
                 viols.append((f"zombify_gives_{kind}:{opname}", desc))
@@ -294,6 +301,7 @@ def cases_for(opname, fixture, tier):
         for k in range(n):
             plans.append([(k, "vanish")])
             plans.append([(k, "zombify")])
+            plans.append([(k, "halfvanish")])
         for k in own:
             plans.append([(k, "EACCES")])
             plans.append([(k, "EPERM")])
@@ -444,7 +452,7 @@ def run_shard(shard):
             v0 = judge(opname, fixture, [], out0, pid, clean_val, acc)
             acc.case(dict(op=opname, fixture=fixture, plan=[]), False, v0)
             for pl in plans:
-                do_post = any(a[1] == "vanish" and (len(a) < 3) for a in pl)
+                do_post = any(a[1] in ("vanish", "halfvanish") and (len(a) < 3) for a in pl)
                 out, pid = run_op(opname, fixture, pl, do_post=do_post)
                 fired = len(out["fired"]) > 0
                 if fired:
@@ -466,7 +474,7 @@ def run_shard(shard):
             pl = [tuple(x) for x in case["plan"]]
             out0, pid = run_op(case["op"], case["fixture"], [])
             clean_val = out0["outcome"][1] if out0["outcome"][0] == "value" else None
-            do_post = any(a[1] == "vanish" and (len(a) < 3) for a in pl)
+            do_post = any(a[1] in ("vanish", "halfvanish") and (len(a) < 3) for a in pl)
             out, pid = run_op(case["op"], case["fixture"], pl, do_post=do_post)
             viols = judge(case["op"], case["fixture"], pl, out, pid, clean_val, acc)
             acc.case(case, True, viols)
